@@ -71,7 +71,7 @@ class AbstractModule(StructuredRecord):
             `~Bio.Seq.Seq`: the downstream overhang.
 
         """
-        return self._match.group(1).seq
+        return self._match.group(1).seq.upper()
 
     def overhang_end(self):
         # type: () -> Seq
@@ -81,7 +81,7 @@ class AbstractModule(StructuredRecord):
             `~Bio.Seq.Seq`: the downstream overhang.
 
         """
-        return self._match.group(3).seq
+        return self._match.group(3).seq.upper()
 
     def target_sequence(self):
         # type: () -> SeqRecord
